@@ -164,7 +164,9 @@ class PlanGen:
             g = self.group()
             body.append(msg(S, "complete", fl, run=run, group=g))
             body.append(msg(S, "wait", None, group=g))
-            body.append(msg(S, "collect", fl, run=run))
+            if not (getattr(self, "backstop", 0.0) and rng.random() < self.backstop):
+                body.append(msg(S, "collect", fl, run=run))
+            # (else: the flyer's data is left to the collection the engine performs itself inside 'close_run')
         if mon and rng.random() < 0.6:
             body.append(msg(S, "unmonitor", mon, run=run))
         body.append(msg(S, "close_run", None, run=run))
